@@ -113,6 +113,22 @@ def random_op(rng, sc, uniq):
     return (coq, lambda: sc.rotate_transition(t, new_source=ns, new_target=nt), 'rotate_transition')
 
 
+def queries(sc):
+    """depth_for / ancestors_for / descendants_for of every state (... and after it)"""
+    out = []
+    for n in list(sc._states.keys()):
+        try:
+            out.append((n, sc.depth_for(n), list(sc.ancestors_for(n)), list(sc.descendants_for(n))))
+        except Exception:  # noqa
+            return []
+    return out
+
+
+def c_queries(qs):
+    return clist(qs, lambda q: '(%s, (%s, (%s, %s)))' % (cstr(q[0]), tocoq.cz(q[1]) if hasattr(tocoq, 'cz') else '%d%%Z' % q[1],
+                                                       clist(q[2], cstr), clist(q[3], cstr)))
+
+
 def classify(e):
     from sismic.exceptions import StatechartError
     if isinstance(e, StatechartError):
@@ -146,6 +162,7 @@ def main(tier, seed):
                                                         p_guard=0.1))
         for _ in range(rng.randint(4, 14)):
             pre = sx.chart_value(sc)
+            queries(sc)       # (as a client would: traversal queries before the edit ...)
             coq, thunk, kind = random_op(rng, sc, uniq)
             try:
                 thunk()
@@ -153,7 +170,8 @@ def main(tier, seed):
             except Exception as e:  # noqa
                 res = classify(e)
             post = sx.chart_value(sc)
-            cases.append(dict(pre=pre, op=coq, res=res, post=post, kind=kind))
+            cases.append(dict(pre=pre, op=coq, res=res, post=post, kind=kind,
+                              queries=queries(sc) if res in ('EOk', 'EStatechartError', 'EValueError') else []))
             opmix[kind] = opmix.get(kind, 0) + 1
             resmix[res.split(':')[0]] = resmix.get(res.split(':')[0], 0) + 1
             if res.startswith('EKey') or res.startswith('EOther'):
@@ -166,9 +184,9 @@ def main(tier, seed):
         with open(fn, 'w') as f:
             f.write(HEADER)
             f.write('Definition cases : list ecase := [\n')
-            f.write(';\n'.join('(mkECase %s\n %s %s\n %s)' % (
+            f.write(';\n'.join('(mkECase %s\n %s %s\n %s\n %s)' % (
                 tocoq.c_chart(c['pre']), c['op'], c['res'] if not c['res'].startswith('EOther') else 'EKeyError',
-                tocoq.c_chart(c['post'])) for c in cases[s:s + shard]))
+                tocoq.c_chart(c['post']), c_queries(c['queries'])) for c in cases[s:s + shard]))
             f.write('\n].\nEval vm_compute in (check_ecases cases).\n')
         files.append(fn)
     res = coq_eval_files(PROP, files)
@@ -189,6 +207,8 @@ def main(tier, seed):
                 clause.append('the edit raised %s but changed the statechart (C16_atomic)' % c['res'])
             if m & 4:
                 clause.append('a successful edit of a sound statechart left it unsound (C16_preserve)')
+            if m & 16:
+                clause.append('depth_for/ancestors_for/descendants_for after the edit are not those of the resulting statechart (C16_effect)')
             if m & 3 and not clause:
                 clause.append('outcome or resulting statechart differs from the documented effect (C16_effect): '
                               'result %s' % c['res'])
